@@ -24,6 +24,9 @@ func (e *Exec) call(fr *Frame, st *State, ins ssa.Instruction, cc *ssa.CallCommo
 		return e.builtin(fr, st, ins, b, cc, args)
 	}
 	if cc.IsInvoke() {
+		if v, ok := e.streamMethod(fr, st, ins, cc, args, rtyp); ok {
+			return v
+		}
 		v := e.unknownCall(fr, st, ins, "interface method "+cc.Method.Name(), rtyp, args)
 		// io.Reader / io.Writer: 0 <= n <= len(p) is part of the documented interface contract
 		if n := cc.Method.Name(); (n == "Read" || n == "Write") && len(args) == 1 && len(v.Tup) == 2 && args[0].T != nil {
@@ -1376,4 +1379,75 @@ func (e *Exec) sortedFormula(fr *Frame, st *State, s *Term, clo *Closure) *Term 
 	less := e.callClosure(clo, []Val{{T: j}, {T: i}}, st, fr).T
 	e.pure--
 	return c.Forall([]*Term{i, j}, c.Implies(guard, c.Not(less)))
+}
+
+
+// streamMethod: methods of the reader / writer / file interfaces. The stream behind such an interface value is not
+// modelled; the call is assumed to change nothing of the modelled state except the byte buffer it is given to fill.
+func (e *Exec) streamMethod(fr *Frame, st *State, ins ssa.Instruction, cc *ssa.CallCommon, args []Val, rtyp types.Type) (Val, bool) {
+	fills := false
+	switch cc.Method.Name() {
+	case "ReadByte", "UnreadByte", "Write", "WriteAt", "WriteString", "WriteByte", "Sync", "Close", "Seek", "Chmod", "Name", "Stat", "Truncate":
+	case "Read", "ReadAt":
+		fills = true
+	default:
+		return Val{}, false
+	}
+	// only for interfaces of the standard library's io / fs families or structurally identical ones: the method set
+	// must not mention types of the program under verification
+	sig := cc.Method.Type().(*types.Signature)
+	for i := 0; i < sig.Params().Len(); i++ {
+		if named := namedPkg(sig.Params().At(i).Type()); named != "" && !stdPkg(named) {
+			return Val{}, false
+		}
+	}
+	if fills && len(args) > 0 && args[0].T != nil {
+		if sl, ok := cc.Args[0].Type().Underlying().(*types.Slice); ok && isByteT(sl.Elem()) {
+			n, srt := e.memArr(sl.Elem())
+			base := e.tm.SliceBase(args[0].T)
+			e.frameCheck(st, n, base)
+			mem := e.heapGet(st, n, srt)
+			_, es := arrayParts(mem.sort)
+			e.heapSet(st, n, e.c.Store(mem, base, e.c.Fresh(n+"@read", es)))
+		}
+	}
+	e.assumed["reader/writer/file interface methods change no modelled state except the buffer they fill (the stream itself is not modelled): "+cc.Method.Name()] = true
+	var ret Val
+	if t, ok := rtyp.(*types.Tuple); ok {
+		if t.Len() == 0 {
+			return Val{}, true
+		}
+		var rs []Val
+		for i := 0; i < t.Len(); i++ {
+			rs = append(rs, e.havocVal(st, t.At(i).Type(), cc.Method.Name()+".ret"))
+		}
+		ret = Val{Tup: rs}
+	} else {
+		ret = e.havocVal(st, rtyp, cc.Method.Name()+".ret")
+	}
+	if n := cc.Method.Name(); (n == "Read" || n == "Write") && len(args) == 1 && len(ret.Tup) == 2 && args[0].T != nil && ret.Tup[0].T != nil && ret.Tup[0].T.sort == "Int" {
+		if sl, ok := cc.Args[0].Type().Underlying().(*types.Slice); ok && isByteT(sl.Elem()) {
+			e.assume(st, e.c.And(e.c.Le(e.c.Int(0), ret.Tup[0].T), e.c.Le(ret.Tup[0].T, e.tm.SliceLen(args[0].T))))
+			e.assumed["interface methods Read/Write([]byte) (int, error) return 0 <= n <= len(p) (io.Reader / io.Writer contract)"] = true
+		}
+	}
+	return ret, true
+}
+
+func namedPkg(t types.Type) string {
+	switch x := t.(type) {
+	case *types.Named:
+		if x.Obj().Pkg() != nil {
+			return x.Obj().Pkg().Path()
+		}
+	case *types.Pointer:
+		return namedPkg(x.Elem())
+	case *types.Slice:
+		return namedPkg(x.Elem())
+	}
+	return ""
+}
+
+func stdPkg(path string) bool {
+	return !strings.Contains(strings.SplitN(path, "/", 2)[0], ".")
 }
